@@ -35,6 +35,16 @@ Faults: while `faults_on`, each frame put on the air gets a fault from
 ...), at most `max_faults` per run and only within the first `window` frames
 after switching faults on.
 
+Foreign frames (`arm_foreign`): other devices may share the field.  While the
+target waits for a request, at most `budget` times per run (one lazy
+`sx.pick` per request the initiator is about to send, names foreign1, ...)
+a well-formed frame that is NOT addressed to this target is seen by it first:
+a DEP_REQ information PDU (symbolic payload, symbolic PNI 0..3), an attention
+DEP_REQ, a DSL_REQ or an RLS_REQ, carrying a DID different from the target's
+(any DID byte when the target has none) or no DID while the target has one.
+Whatever the target transmits in reply is recorded (`foreign_answered`) and
+goes nowhere; then the genuine frame follows.  Takes no virtual time.
+
 Two call stacks, no free-running threads: the initiator stack runs in the
 calling thread, the target stack in a second OS thread, and exactly one of
 them is runnable at any time (the solver is not re-entrant).  The baton
@@ -95,6 +105,24 @@ class Frame(object):
         return s
 
 
+class Foreign(object):
+    """a frame on the air that is addressed to some other device"""
+    sender, fault, step, pdu, pni = 'X', DELIVER, None, 'X', None
+    start_byte_ok = length_byte_ok = True
+    td_len = 0
+
+    def __init__(self, kind, brty, data):
+        self.kind, self.brty, self.data = kind, brty, data
+        self.answer = None
+
+    @property
+    def name(self):
+        return "foreign-" + self.kind
+
+    def __str__(self):
+        return "X:" + self.kind
+
+
 class Air(object):
     def __init__(self, sx, tech='106A', max_faults=0, window=40,
                  max_frames=400):
@@ -112,6 +140,9 @@ class Air(object):
         self.local = None           # LocalTarget handed to listen()
         self.late = 0               # target waits that outlasted their timeout
         self.unsolicited = 0        # target transmissions without a request
+        self.foreign = None         # dict(kinds, tdid, frame_did, budget)
+        self.nsites = 0
+        self.foreign_frames = []    # Foreign records, in order
         # rendezvous
         self.cv = threading.Condition()
         self.turn = 'I'
@@ -204,11 +235,12 @@ class Air(object):
         self.faults_on, self.skip = True, skip
 
     def _fault(self, frame):
-        if not self.faults_on or self.nfaults >= self.max_faults or \
-                self.nfaultable >= self.window:
+        if not self.faults_on:
             return DELIVER
         if self.skip > 0:
             self.skip -= 1
+            return DELIVER
+        if self.nfaults >= self.max_faults or self.nfaultable >= self.window:
             return DELIVER
         self.nfaultable += 1
         f = self.sx.pick("fault%d" % self.nfaultable, [DELIVER, LOSE, CORRUPT])
@@ -216,6 +248,61 @@ class Air(object):
             self.nfaults += 1
         frame.fault = f
         return f
+
+    # -------------------------------------------------------- foreign frames
+    def arm_foreign(self, kinds, tdid, frame_did, budget=1, window=16):
+        """kinds: subset of INF, ATN, DSL, RLS; tdid: the target's DID or
+        None; frame_did: the foreign frames carry a DID (different from tdid)"""
+        assert frame_did or tdid is not None, "frame would be addressed to the target"
+        self.foreign = dict(kinds=list(kinds), tdid=tdid, frame_did=frame_did,
+                            budget=budget, window=window)
+
+    def _foreign_frame(self, n, kind):
+        sx, cfg = self.sx, self.foreign
+        did = []
+        if cfg['frame_did']:
+            if cfg['tdid'] is None:
+                did = [sx.int("foreign%d.did" % n, 0, 255)]
+            else:
+                d = sx.int("foreign%d.did" % n, 0, 254)
+                did = [sx.ite(d >= cfg['tdid'], d + 1, d)]
+        if kind == "INF":
+            pni = sx.int("foreign%d.pni" % n, 0, 3)
+            body = [0xD4, 0x06, (4 if did else 0) | pni] + did + \
+                [sx.byte("foreign%d.data[%d]" % (n, i)) for i in range(2)]
+        elif kind == "ATN":
+            body = [0xD4, 0x06, 0x80 | (4 if did else 0)] + did
+        elif kind == "DSL":
+            body = [0xD4, 0x08] + did
+        else:
+            body = [0xD4, 0x0A] + did
+        head = [0xF0] if self.brty == '106A' else []
+        return Foreign(kind, self.brty,
+                       sx.mkbytes(head + [len(body) + 1] + body, True))
+
+    def _maybe_foreign(self):
+        """cv held, initiator thread, the target waits for a request"""
+        cfg = self.foreign
+        if cfg is None or cfg['budget'] <= 0 or self.nsites >= cfg['window'] \
+                or self.tgt_done:
+            return
+        self.nsites += 1
+        n = self.nsites
+        if not self.sx.pick("foreign%d" % n, [0, 1]):
+            return
+        cfg['budget'] -= 1
+        kind = self.sx.pick("foreign%d.kind" % n, cfg['kinds'])
+        rec = self._foreign_frame(n, kind)
+        self.frames.append(rec)
+        self.foreign_frames.append(rec)
+        self.to_tg = ('ok', rec)
+        self.to_in = None
+        self.ini_waiting = True
+        try:
+            self._run_target()
+        finally:
+            self.ini_waiting = False
+        rec.answer, self.to_in = self.to_in, None
 
     # -------------------------------------------------------- initiator side
     def sync_listen(self):
@@ -228,6 +315,8 @@ class Air(object):
         with self.cv:
             if len(self.frames) >= self.max_frames:
                 raise FrameStorm()
+            if self.faults_on and self.skip == 0:
+                self._maybe_foreign()
             frame = Frame('I', self.brty, bytearray(data), self.step)
             self.frames.append(frame)
             f = self._fault(frame)
